@@ -635,6 +635,10 @@ def run_tables(ctx, cfg):
     fmt, table, kind = cfg['fmt'], cfg['table'], cfg['kind']
     tmp = v4.scratch_dir('c16tab')
     use = _have(ctx, 164)
+    # while an obligation is broken (failing-input search) the driver may be the LAST GOOD one - possibly built from
+    # another tree (e.g. the previous patch under test): lines against the model would be artefacts; the property
+    # lines (bits of the requested names of the file's table) do not depend on it
+    tie_ok = not getattr(ctx, 'searching', False)
     tcodes = [codes(n) for n in table]
     base = 'stream=tables;fmt=%s;table=%s' % (fmt, kind)
     try:
@@ -681,6 +685,8 @@ def run_tables(ctx, cfg):
             if use:
                 _INCOQ_TAB.append(([164, [1, FMT_CODE[fmt], tcodes, wire_arg(cur)]], mo))
                 mo = mo[:3] + [[''.join(chr(c) for c in n) for n in mo[3]]]
+                if not tie_ok:      # warning count and getter names follow the regenerated constants: take the documented ones
+                    mo = mo[:2] + table_py(fmt, table, cur)[2:]
             names = _names_py(cur, table)
             sel = 'all' if cur == 'all' else ('empty' if not names else
                                               ('named' if any(n in table for n in names) else 'unknown_only'))
@@ -692,7 +698,7 @@ def run_tables(ctx, cfg):
                 ok = False
                 ctx.disagree(sig.replace(base, base + ';obs=mask'), case, mask, mo[0],
                              'mask differs from the bits of the requested names of the table of the file', spec=mo[1])
-            elif mask != mo[0]:
+            elif mask != mo[0] and tie_ok:
                 ok = False
                 ctx.disagree(sig.replace(base, base + ';obs=mask') + ';vs=model', case, mask, mo[0],
                              'mask differs from the model', spec=mo[1], kind='tie')
@@ -714,7 +720,7 @@ def run_tables(ctx, cfg):
                                  nwarn, mo[2], 'number of "not a legitimate flag type" warnings differs from the number of '
                                  'requested names the table of the file does not have')
             getter = [n.decode() if isinstance(n, bytes) else str(n) for n in d._flags_keep]    # np.bytes_ is a bytes
-            if ok and getter != mo[3]:
+            if ok and getter != mo[3] and tie_ok:
                 ok = False
                 ctx.disagree(sig.replace(base, base + ';obs=getter') + ';vs=model', case, getter, mo[3],
                              'the names d._flags_keep reports differ from the names of the set bits', kind='tie')
@@ -737,7 +743,7 @@ def run_tables(ctx, cfg):
             if not ok:
                 return
         # the whole history through the faithful model of select() on the file's table (wire 164 (2 ...))
-        if use:
+        if use and tie_ok:
             outs = ctx.model([[164, [2, FMT_CODE[fmt], tcodes, hist]]])[0]
             _INCOQ_TAB.insert(0, ([164, [2, FMT_CODE[fmt], tcodes, hist]], outs))
             last = outs[-1] if isinstance(outs, list) and outs else None
